@@ -259,6 +259,13 @@ func CheckRedef(props map[string]bool, s Scenario, o Outcome, pure bool) []Findi
 	if r.CallUnsat {
 		add("C08", "unsatisfied", "calling the redefined function with a value for every declared input fails for lack of an argument: %s", unsatArgs(r.CallErr))
 	}
+	// zero-valued supplies (tier redefzero) carry no provenance term: only the structural
+	// clauses above are decided for them
+	for _, in := range s.Inputs {
+		if in.V == "" {
+			return fs
+		}
+	}
 	// the redefined call must itself be a valid execution: C01 on its log with the new values as inputs
 	s2 := s
 	s2.Inputs = append(append([]Input{}, s.Inputs...), r.NewInputs...)
